@@ -3,7 +3,7 @@ import contextlib, io, json, logging, os, re
 from ..core import Violation
 
 ID = 'C11'
-MODULES = ['OFModel.Config.Grammar', 'OFModel.Config.Base', 'OFModel.Config.IO', 'OFModel.Config.Webvis']
+MODULES = ['OFModel.Config.Grammar', 'OFModel.Config.Base', 'OFModel.Config.IO', 'OFModel.Config.Webvis', 'OFModel.Config.REST']
 RULE = ('(a) grammar functions: random strings over the grammar alphabet (",;>!= no- identifiers digits . e - quotes brackets, ASCII and Unicode blanks), '
         'structured-valid and malformed, fed to split_commas_maybe / json_getval / parse_topics (mapping True/False/None, max_topics None/1/2/3) / parse_options '
         'and to the Lean model; (b) render->parse round trips: valid topic/option lists rendered BY THE MODEL and parsed BY THE IMPLEMENTATION; '
@@ -20,8 +20,8 @@ TRUSTED = ['Python str.strip()/split(), re `^(?:no-)?[a-zA-Z_]\\w*(?:=|$)` and j
 
 CLASSES = ['Filter', 'Util', 'Recorder', 'VideoIn', 'VideoOut', 'ImageIn', 'ImageOut', 'MQTTOut', 'REST', 'Webvis']
 # classes whose C11_nf_<Class>/C11_idempotent_<Class> theorem is proved; the others are covered at differential level only
-CLASSES_PROVED = ['Filter', 'VideoIn', 'ImageIn', 'VideoOut', 'ImageOut', 'Webvis']
-CLASSES_MODELLED = ['Filter', 'VideoIn', 'ImageIn', 'VideoOut', 'ImageOut', 'Webvis', 'Recorder', 'REST']
+CLASSES_PROVED = ['Filter', 'VideoIn', 'ImageIn', 'VideoOut', 'ImageOut', 'Webvis', 'Recorder', 'REST']
+CLASSES_MODELLED = ['Filter', 'VideoIn', 'ImageIn', 'VideoOut', 'ImageOut', 'Webvis', 'Recorder', 'REST', 'Util']
 
 
 # ------------------------------------------------------------------------------------------------ canonical forms
